@@ -14,9 +14,21 @@ M-Sync     : the TRACKING CALLS and the control flow they depend on of
              declaring ingress object and the objects read for it.  "An item's content is a
              function of its trace" is the decomposition abstraction (modelling assumption,
              validated end-to-end by the long-lived-vs-fresh oracle of the harness).
+             The controller option `--default-backend-service=<ns>/<svc>` (`syncDefaultBackend`) is modelled
+             as ONE MORE DECLARATION SOURCE in the existing structures: the converter's pseudo source
+             `defaultBackSource` (`annotations.Source{Name: "<default-backend>", Type: Ingress}`) is an
+             `Ingress` value flagged `pseudo` (`optIngress`) that is a member of the cluster from the start,
+             is never touched by an event, sorts first, and declares only a default backend whose port is
+             "the first port of the service" (`firstPort`). Its declaration runs the `syncDefaultBackend`
+             branch of `outcome` (pseudo ↔ default host tracked first and unconditionally, then
+             `addBackend`; no host is acquired, no path added). Because it is an ordinary member of
+             `World.ings`, `syncFull` (called first: lowest sort key), the dirty closure, the re-read step of
+             `syncPartial` (a dirty name that the cache does not know and equals
+             `defaultBackSource.FullName()` → `syncDefaultBackend`, before the sorted ingress list) and every
+             theorem of Props/C01 (invariant, closure completeness, partial = full) cover it unchanged.
 Not modelled (differentially tested only, the driver abstains): TCP-service ingresses, annotations
 that track (auth-*, oauth, ssl-passthrough, redirect-to, path-type, header match, cert-signer),
-cross-namespace names, `file://` secrets, the default-backend option, Gateway API.
+cross-namespace names, `file://` secrets, Gateway API.
 -/
 namespace HapVerif.C01
 
@@ -130,9 +142,14 @@ structure Ingress where
   rules : List Rule := []
   tls : List TlsDecl := []
   defBackend : Option (String × String) := none
+  /-- the pseudo source of `--default-backend-service` (`converter.defaultBackSource`): its
+  `Source.Namespace` is empty (`FullName()` = "/<default-backend>"); `ns` holds the namespace part of the
+  option value (`addBackend` splits the full service name), `defBackend` the service name and `firstPort` -/
+  pseudo : Bool := false
 deriving DecidableEq, Repr, Inhabited
 
-def Ingress.key (i : Ingress) : String := i.ns ++ "/" ++ i.name
+/-- `Source.FullName()` / the cache key -/
+def Ingress.key (i : Ingress) : String := (if i.pseudo then "" else i.ns) ++ "/" ++ i.name
 
 structure SvcPort where
   name : String
@@ -343,6 +360,12 @@ def ingPort (p : String) : String :=
   let n := atoi p
   if n > 0 then toString n else if p = "" then "0" else p
 
+/-- port text of the declaration of the pseudo source: `addBackendWithClass` with `svcPort == ""` takes
+`svc.Spec.Ports[0].TargetPort.String()`, which `FindServicePort` resolves to the first port itself. (Not a
+valid port name, so no ingress can carry it; a service without ports would panic in the Go code — the
+world has none — and reads as "port not found" here.) -/
+def firstPort : String := "<first>"
+
 /-- `convutils.FindServicePort` -/
 def findServicePort (s : Service) (port : String) : Option SvcPort :=
   match s.ports.find? (fun p => p.name = port ∨ p.target = port) with
@@ -361,11 +384,15 @@ inductive Resolve
   | ok (s : Service) (target : String)
 deriving DecidableEq, Repr
 
+/-- the service port a declaration resolves to -/
+def portOf (s : Service) (port : String) : Option SvcPort :=
+  if port = firstPort then s.ports.head? else findServicePort s (ingPort port)
+
 def resolve (w : World) (ns svc port : String) : Resolve :=
   match w.findSvc (ns ++ "/" ++ svc) with
   | none => .noSvc
   | some s =>
-    match findServicePort s (ingPort port) with
+    match portOf s port with
     | none => .noPort s
     | some p => .ok s p.target
 
@@ -473,7 +500,19 @@ def outcome (rev : Rev) (w : World) (cur : Option Host) (d : Decl) : Outcome :=
           back := some (id, touch ("path:" ++ d.host ++ uri ++ ":" ++ m) reads),
           edges := edges }
   | .defBack svc port =>
-    if x.hasPath "/" "begin" then
+    if d.ing.pseudo then
+      -- `syncDefaultBackend` (option --default-backend-service): pseudo source ↔ default host is tracked
+      -- first, also when the service cannot be read (bfa2c57); then `addBackend`; on success the backend
+      -- becomes `Backends().DefaultBackend`. No host is acquired and no path is added: the entry of the
+      -- default host only records the dependency (it stays not live unless an ingress declares it).
+      match addBackend w d svc port with
+      | (edges, reads, none) =>
+        { host := { x with trace := x.trace ++ [touch "opt-nobackend" reads] }, edges := (iN, hN) :: edges }
+      | (edges, reads, some id) =>
+        { host := { x with trace := x.trace ++ [touch ("opt:" ++ id) reads] },
+          back := some (id, touch "default-backend" reads),
+          edges := (iN, hN) :: edges }
+    else if x.hasPath "/" "begin" then
       -- the loser still tracks the host
       { host := { x with trace := x.trace ++ [touch "def-loser" []] },
         edges := (iN, hN) :: skippedEdges rev w d svc port }
@@ -714,5 +753,26 @@ def runHistory (rev : Rev) (batches : List (List Op)) : World × Ctl :=
   batches.foldl (fun (wc : World × Ctl) ops =>
     let (w', b) := ops.foldl applyOp (wc.1, {})
     (w', reconcile rev w' b wc.2)) ({}, {})
+
+/-! ## the option --default-backend-service -/
+
+/-- `converter.defaultBackSource` for the option value `ns/svc`, as a member of the cluster: valid (the class
+annotation stands for "is always read"), oldest possible creation time and a key below every `ns/name` with a
+non-empty namespace, hence first in `sortIngs`; declares only the default backend `svc`, first port -/
+def optIngress (ns svc : String) : Ingress :=
+  { ns := ns, name := "<default-backend>", created := 0, classAnn := some ourClass, pseudo := true,
+    defBackend := some (svc, firstPort) }
+
+/-- the cluster a controller started with `--default-backend-service=ns/svc` sees before any event -/
+def optWorld (db : Option (String × String)) : World :=
+  match db with
+  | some (ns, svc) => { ings := [optIngress ns svc] }
+  | none => {}
+
+/-- a whole history under the controller option -/
+def runHistoryOpt (rev : Rev) (db : Option (String × String)) (batches : List (List Op)) : World × Ctl :=
+  batches.foldl (fun (wc : World × Ctl) ops =>
+    let (w', b) := ops.foldl applyOp (wc.1, {})
+    (w', reconcile rev w' b wc.2)) (optWorld db, {})
 
 end HapVerif.C01
